@@ -187,7 +187,7 @@ class TriggerHandler:
             return
         seen = 0
         other = getattr(current, '__self__', None)
-        while isinstance(other, TriggerHandler) and other is not self and seen < 8:
+        while isinstance(other, TriggerHandler) and other is not self and seen < 1000:
             if for_new_threads:
                 theirs = other.__old_thread_trace
             elif hasattr(other.__start_thread, 'old'):
@@ -210,10 +210,11 @@ class TriggerHandler:
         It can be the function of another agent that was live when we started, and has been shut down since: what
         it had remembered is put back in its place.
         """
+        # (the chain is as long as there are agents in the process; the bound is only there against a circle)
         seen = 0
         by_hook = for_new_threads
         while isinstance(getattr(remembered, '__self__', None), TriggerHandler) and remembered.__self__.__shutdown \
-                and seen < 8:
+                and seen < 1000:
             other = remembered.__self__
             if not for_new_threads and other._callbacks.is_set:
                 # it still has work pending on this thread (a span to close when the function returns): it needs the
